@@ -161,9 +161,13 @@ CLAIMS = {
        'invocation while the first is parked before its K-th command (an invocation that finds the lock taken must leave the database untouched). The parts of '
        'the script that are not translated statement by statement (top-level skeleton, uptodate, try_revert, main) are tied by their text.',
   design_ref='DESIGN.md section 4, C19',
-  note='Trusted: git and flock(1); the regex translator; push failures not modelled. Liveness (next undisturbed run publishes the newest '
-       'compiling revision) is proved for a run that reaches the compiler (C19_undisturbed_run_publishes_partial) and checked dynamically for '
-       'all kill points (F-C19-1 fixed).',
+  note='Trusted: git and flock(1); the regex translator; push failures not modelled. Liveness: Newpolicy/Live.v models the directory next, the marker failed, '
+       'the revision of current, the head of the repository and the test uptodate; C19_marker_only_with_failed_compile (invariant over all histories of commits and '
+       'runs killed after any operation) and C19_newest_compiling_head_becomes_current (then one undisturbed run makes a head that compiles current and a further run '
+       'finds everything up to date) hold for the generated script; C19_liveness_before_8e2c570_refuted is the witness for the script before the repair. Tie of this model: '
+       'every run of the kill enumeration is observed before and after (next, marker, revisions) and compared with the model in Coq (a killed run must end in a state some '
+       'prefix of the operations produces, an undisturbed run in the state of the whole run); the text of uptodate() is tied by its hash. Not modelled: try_revert and the '
+       'loop of main (runs in which a revert commit appears are not compared); the theorem speaks about a head that compiles.',
   technique='Translator from shell to abstract operations + verified checker (Coq) + kill-point enumeration on the real script'),
  'C18': dict(
   text='List-level Gallina model of mergeASAACLs / mergeIOSACLs / the Linux rule loop / the PAN-OS rulebase merge with four theorems for '
